@@ -361,9 +361,105 @@ def run(ctx, prj: Project):
     ctx.not_decided = ["round trip of values whose run-time type differs from the declared one",
                        "equality of totals / folder profiles after re-aggregation (C07 covers the aggregation rules)"]
     ctx.trust("json.dumps produces a valid JSON string for every str / None", "json.loads / dict semantics", "CPython ast")
-    w, r = Writer(prj), Reader(prj)
-    rule_R1(ctx, prj, w)
-    rule_R2(ctx, prj, w, r)
-    rule_R3(ctx, prj, w, r)
-    rule_R4(ctx, prj, w)
-    rule_R5(ctx, prj, r)
+    evaluated = rule_R6_roundtrip(ctx, prj)
+    structural = [("R1", lambda: rule_R1(ctx, prj, Writer(prj))), ("R2", lambda: rule_R2(ctx, prj, Writer(prj), Reader(prj))),
+                  ("R3", lambda: rule_R3(ctx, prj, Writer(prj), Reader(prj))), ("R4", lambda: rule_R4(ctx, prj, Writer(prj))),
+                  ("R5", lambda: rule_R5(ctx, prj, Reader(prj)))]
+    for rid, fn in structural:
+        if not evaluated:
+            fn()
+            continue
+        # the round trip was decided by evaluation: a structural rule that cannot read this form of the writer/reader
+        # is not applicable rather than an error
+        before = len(ctx.violations)
+        try:
+            fn()
+        except AnalysisError as e:
+            ctx.info(f"{rid}: schema extraction not applicable to this form of the writer/reader ({e}); R6 (evaluated round trip) decides")
+            ctx.floors.pop(rid, None)
+        new = ctx.violations[before:]
+        if new and rid in ("R1", "R2", "R4") and not any(v.rule == "R6" for v in ctx.violations):
+            # the textual reading of the writer/reader disagrees with the evaluated round trip, which passed on a report
+            # whose every string needs escaping and whose every key is read back: the reading is at fault, not the code
+            del ctx.violations[before:]
+            ctx.instances[rid] = [i for i in ctx.instances.get(rid, []) if i.get("verdict") != "violation"]
+            ctx.floors.pop(rid, None)
+            ctx.info(f"{rid}: {len(new)} finding(s) of the textual schema reading contradicted by the evaluated round trip (R6), not reported: "
+                     + "; ".join(f"{v.key}" for v in new[:3]))
+    if evaluated:
+        for rid in ("R1", "R2", "R3", "R4", "R5"):
+            if rid in ctx.floors and len([i for i in ctx.instances.get(rid, []) if i.get("verdict") == "ok"]) < ctx.floors[rid] \
+                    and not any(v.rule == rid for v in ctx.violations):
+                ctx.info(f"{rid}: only {len(ctx.instances.get(rid, []))} instances recognised in this form of the code; R6 (evaluated round trip) decides")
+                ctx.floors.pop(rid, None)
+
+
+def rule_R6_roundtrip(ctx, prj) -> bool:
+    """-> True when the round trip could be evaluated (verdicts recorded), False when it left the interpreted fragment"""
+    import json
+    from ..absint import PyRaise, Unknown
+    from ..report_eval import ReportLab, first_difference
+    ctx.rule("R6", "round trip evaluated: a report built through the repo's own constructors, with every string field "
+                   "carrying a distinct tag plus a quote, backslash, newline, tab, control, non-ASCII and U+2028 character and "
+                   "every number distinct, is written (pretty and compact) by the interpreted ReportWriter - both texts are "
+                   "valid JSON and parse to the same value - read back by the interpreted ReportReader - same version, "
+                   "identifier, root, repository, files in order with checksum, language, line total and measurements, same "
+                   "totals and folder profiles - and written again - same document up to the timestamp; with and without "
+                   "repository, with a version and with version null", floor=4)
+    wfi = prj.func("codelimit.common.report.ReportWriter:ReportWriter.to_json")
+    rfi = prj.func("codelimit.common.report.ReportReader:ReportReader.from_json")
+    try:
+        for with_repo in (True, False):
+            for version in ("9.9.9-tag", None):
+                case = f"repository={'present' if with_repo else 'absent'}, version={version!r}"
+                lab = ReportLab(prj)
+                rep = lab.sample(with_repo, version)
+                texts = {}
+                docs = {}
+                bad = False
+                for pretty in (True, False):
+                    form = "pretty" if pretty else "compact"
+                    try:
+                        t = lab.write(rep, pretty)
+                    except PyRaise as e:
+                        ctx.viol("R6", f"to_json/{form}/raises", wfi.site(e.node) if e.node is not None else wfi.site(), f"{case}: writing the {form} form raises {e.name}")
+                        bad = True
+                        continue
+                    texts[form] = t
+                    try:
+                        docs[form] = json.loads(t)
+                    except ValueError as e:
+                        frag = t[max(0, getattr(e, "pos", 0) - 40): getattr(e, "pos", 0) + 20]
+                        ctx.viol("R6", f"to_json/{form}/invalid-json", wfi.site(), f"{case}: the {form} document is not valid JSON ({e}); near {frag!r}: "
+                                 f"a string is pasted into the document without JSON escaping")
+                        bad = True
+                if bad:
+                    continue
+                if docs["pretty"] != docs["compact"]:
+                    from ..report_eval import first_difference as fd
+                    ctx.viol("R6", "to_json/pretty-vs-compact", wfi.site(), f"{case}: the pretty and the compact document parse to different values: {fd(docs['pretty'], docs['compact'])}")
+                    continue
+                try:
+                    back = lab.read(texts["pretty"])
+                except PyRaise as e:
+                    ctx.viol("R6", "from_json/raises", rfi.site(e.node) if e.node is not None else rfi.site(), f"{case}: reading the written document raises {e.name} (a key the writer does not emit, or a value of another shape)")
+                    continue
+                d = first_difference(lab.snapshot(rep), lab.snapshot(back))
+                if d:
+                    what = d.split(":")[0].strip("/").split("/")[0].split("[")[0]
+                    ctx.viol("R6", f"roundtrip/{what}", rfi.site(), f"{case}: the re-read report differs from the written one at {d[:300]}")
+                    continue
+                t2 = lab.write(back, True)
+                d1, d2 = json.loads(texts["pretty"]), json.loads(t2)
+                d1.pop("timestamp", None)
+                d2.pop("timestamp", None)
+                if d1 != d2:
+                    ctx.viol("R6", "roundtrip/rewrite", wfi.site(), f"{case}: writing the re-read report gives another document: {first_difference(d1, d2)}")
+                    continue
+                ctx.ok("R6", wfi.site(), f"{case}: pretty/compact valid and equal, re-read report equal, re-written document equal up to timestamp "
+                                         f"({len(texts['pretty'])} characters, {lab.it.steps} interpreter steps)")
+    except Unknown as e:
+        ctx.info(f"round trip not evaluable ({e}); structural rules decide")
+        ctx.rule("R6", "round trip not evaluable by the interpreter: structural rules R1-R5 decide", floor=0)
+        return False
+    return True
